@@ -23,6 +23,8 @@ class FileObj(object):
         self.closed = False
         self.written = []
         self.pos = None
+        self.content = None       # ghost: z3 String, the bytes of the file (read model A3)
+        self.rpos = None          # ghost: z3 Int, read position
 
 
 class CtxMgr(object):
@@ -39,6 +41,7 @@ class HashObj(object):
 
 
 exists_uf = z3.Function("fs_exists", sym.S, z3.BoolSort())
+content_uf = z3.Function("fs_content", sym.S, sym.S)
 digest_uf = z3.Function("hash_hexdigest", sym.S, sym.S, sym.S)     # (algorithm, content) -> lower-case hex digest
 
 
@@ -87,7 +90,24 @@ def install(E):
             E.path.effects.append(("close", fo))
             return None
         if name == "read":
-            return M_.file_read(fo, args)
+            # A3: read(n) returns the next k <= n bytes, k >= 1 unless at end of file
+            if fo.content is None:
+                p = sym.sstr(fo.path) if sym.liftable(fo.path) else z3.StringVal("?")
+                fo.content = content_uf(p)
+                fo.rpos = z3.IntVal(0)
+            n = sym.sint(args[0]) if args else None
+            k = E.fresh("read_k", z3.IntSort())
+            rest = z3.Length(fo.content) - fo.rpos
+            E.assume(z3.And(k >= 0, k <= rest))
+            if n is not None:
+                E.assume(k <= n)
+                E.assume((k == 0) == (rest == 0))
+            else:
+                E.assume(k == rest)
+            chunk = z3.SubString(fo.content, fo.rpos, k)
+            fo.rpos = z3.simplify(fo.rpos + k)
+            E.path.assumed.append("A3:file.read")
+            return sym.mk_str(chunk)
         if name == "readlines":
             raise Unsupported("readlines of a symbolic file")
         raise Unsupported("file.%s" % name)
@@ -369,14 +389,23 @@ def _parser_method(M, pv, name, args, kwargs):
             if E.decide(sym.isin(low, no)):
                 return False
             raise PyRaise(ExcVal(ValueError, ("Not a boolean",)))
+    def ordered(items):
+        # A2: sections/options come in the dict_type's iteration order; the repository passes its SortedDict (sorted keys)
+        a, k = o.fields.get("__ext_init__", ((), {}))
+        dt = k.get("dict_type")
+        if dt is not None and getattr(dt, "key", None) == ("common", "SortedDict"):
+            return M.sorted_(items, key=None if not items or not isinstance(items[0], tuple) else (lambda x: x[0]))
+        return items
     if name == "sections":
-        return [k for k, _ in M.dict_items(secs)]
+        return ordered([k for k, _ in M.dict_items(secs)])
     if name == "options":
         sd = need_section(args[0])
-        return [k for k, _ in M.dict_items(sd)]
+        return ordered([k for k, _ in M.dict_items(sd)])
     if name == "items":
         sd = need_section(args[0])
-        return [(k, v) for k, v in M.dict_items(sd)]
+        its = [(k, v) for k, v in M.dict_items(sd)]
+        keys = ordered([k for k, _ in its])
+        return [(k, v) for k in keys for kk, v in its if kk is k]
     if name == "write":
         E.path.effects.append(("write", args[0], ("ini", o)))
         return None
